@@ -9,4 +9,4 @@ Extraction "model.ml"
   apdu_parse u2f_request_of u2f_serialize u2f_pubkey op_of_u8 u8_of_op vendor_of_u8 dispatch
   truncate utf8_valid floor_char_boundary skip_item status_of_cerr status_invalid_command
   match_u8 match_var bytes_of_string Z.add Z.mul Z.sub Z.div Z.modulo Z.of_nat Z.to_nat
-  Z.eqb Z.ltb Z.leb lookup type_fuel arb_rp arb_user arb_hmac arb_filtered.
+  Z.eqb Z.ltb Z.leb lookup type_fuel arb_rp arb_user arb_hmac arb_filtered arb_subparams arb_descref.
